@@ -69,19 +69,19 @@ def mnumOf (v : Version) : NumDesc → Option MNum
     | .zero => some (zeroMNum false false)
     | .error _ => none
     | .number fin stream ex => some (mnumOfStream stream ex fin false false (f.length + 1))
-  | .gen l e _ first =>
+  | .gen l e _ first hashed =>
     let stream : Nat → Int := fun p =>
       if l ≥ 0 ∧ (p : Int) ≥ l then -1
       else match first with
-        | some f => if p = 0 then f else (genDigit p : Int)
-        | none => (genDigit p : Int)
+        | some f => if p = 0 then f else (srcDigit hashed p : Int)
+        | none => (srcDigit hashed p : Int)
     match v with
     | .v3 =>
       match newNumber stream e with
       | .number _ s ex => some (mnumOfStream s ex false true true (if l < 0 then 0 else l.toNat + 1) |> fun m =>
           if l < 0 then { m with src := ⟨none, m.src.digit⟩ } else m)
       | _ => some (zeroMNum true true)
-    | _ => some ⟨false, e, ⟨if l < 0 then none else some l.toNat, genDigit⟩, true, false, false, none⟩
+    | _ => some ⟨false, e, ⟨if l < 0 then none else some l.toNat, srcDigit hashed⟩, true, false, false, none⟩
 
 inductive MH
   | h3 (v : Val3)
